@@ -122,9 +122,35 @@ rfunction_t make_shifted_registered(const std::string& id, const tensor_size_t s
         .clone();
 }
 
+// f(x) = quadratic_penalty[c = 2](sphere constrained by x_0 <= 1/4)(x) - r: a functional whose evaluation itself evaluates a
+// penalty function (nested evaluation in the same thread)
+rfunction_t make_nested_penalty(const tensor_size_t size, const scalar_t r)
+{
+    const auto proto = function_t::all().get("sphere");
+    if (!proto || size < 1)
+    {
+        throw bad_op("nested penalty");
+    }
+    std::shared_ptr<function_t> inner = proto->make(size, 10);
+    if (!inner || inner->size() != size || !inner->constrain(constraint::maximum_t{0.25, 0}))
+    {
+        throw bad_op("nested penalty: cannot constrain");
+    }
+    auto penalty = std::make_shared<quadratic_penalty_function_t>(*inner);
+    penalty->penalty(2.0);
+    const auto lambda = [inner, penalty, r](vector_cmap_t x, vector_map_t gx) -> scalar_t { return penalty->vgrad(x, gx) - r; };
+    return make_function(size, convexity::yes, smoothness::yes, 0.0, lambda).clone();
+}
+
 rfunction_t parse_functional(toks_t& toks)
 {
     const auto kind = toks.s();
+    if (kind == "P")
+    {
+        const auto size = toks.i64();
+        const auto r    = toks.f();
+        return make_nested_penalty(size, r);
+    }
     if (kind == "Q")
     {
         const auto rows = toks.i64();
